@@ -40,7 +40,7 @@ RULE = ('12 programs of 3-4 threads (1-2 senders, 1-2 receivers) over WirePort l
         'switch inside an operation (every schedule with a preemption is)')
 ASSUMPTIONS = [
     'pre-emption happens at line boundaries of the monitored files only (CPython may also switch inside a line; messages/*.py is not instrumented, so Message.copy() is atomic here)',
-    'ports lock with the lock object the port created itself; it is wrapped after construction, semantics unchanged',
+    'ports lock with the lock object they create themselves: while a schedule runs, RLock() inside mido.ports and ParserQueue returns the real RLock wrapped in a scheduler-aware object (same semantics, incl. re-entrancy and try-acquire); the harness never reads or replaces port._lock',
     'ordering is judged per receiver thread and per sender only; no order is demanded between different members of a MultiPort or across receivers',
     'the native backends (rtmidi callbacks etc.) are out of reach; device ports are modelled by byte-wise doubles shaped like sockets.py/portmidi.py',
 ]
@@ -196,15 +196,13 @@ class Program:
     stress = False
 
     def wrap(self, sc, port, name):
-        port._lock = self.wraplock(sc, port._lock, name)
+        """Nothing to do: while a schedule runs, every RLock the ports module (or ParserQueue)
+        creates - whenever it creates it - is a scheduler-aware lock (see LockShim), so the port's
+        _lock attribute is never touched by the harness."""
         return port
 
     def wraplock(self, sc, lock, name):
-        """Under the deterministic scheduler the port's own lock is wrapped;
-        in free-running stress mode it is left exactly as the port made it."""
-        if self.stress:
-            return lock
-        return sched.SchedLock(sc, lock, name)
+        return lock
 
 
 class P1Wire(Program):
@@ -443,6 +441,20 @@ PROGRAMS = [P1Wire, P2Echo, P3IOPort, P4Fanout, P4Fanin, P5IterPending, P6Parser
             P7SocketPair, P6cParserQueueLong, P8ParseAll, P9PanicVsSend]
 
 
+class LockShim:
+    """Stands in for the `threading` module inside mido.ports while a schedule runs: RLock() gives a
+    real RLock wrapped in a SchedLock, everything else is the real module."""
+
+    def __init__(self, sc, real):
+        self._sc, self._real = sc, real
+
+    def RLock(self):
+        return sched.SchedLock(self._sc, self._real.RLock(), 'port-lock')
+
+    def __getattr__(self, name):
+        return getattr(self._real, name)
+
+
 def run_schedule(prog_cls, strategy, max_steps=6000):
     """One execution.  Returns (scheduler, recorder, program)."""
     sc = sched.Scheduler(codes(), strategy, max_steps=getattr(prog_cls, 'max_steps', max_steps),
@@ -451,14 +463,20 @@ def run_schedule(prog_cls, strategy, max_steps=6000):
     prog = prog_cls()
     orig_sleep = mido.ports.sleep
     orig_random = mido.ports.random
+    orig_threading = mido.ports.threading
+    orig_rlock = mido.backends._parser_queue.RLock
     mido.ports.sleep = sc.sleep
     mido.ports.random = random.Random(12345)
+    mido.ports.threading = LockShim(sc, orig_threading)
+    mido.backends._parser_queue.RLock = mido.ports.threading.RLock
     try:
         bodies = prog.build(sc, rec)
         sc.run(bodies, wall_timeout=10.0)
     finally:
         mido.ports.sleep = orig_sleep
         mido.ports.random = orig_random
+        mido.ports.threading = orig_threading
+        mido.backends._parser_queue.RLock = orig_rlock
     # quiescent drain by the main thread
     if not sc.aborted:
         for pname, port in prog.ports.items():
